@@ -92,7 +92,7 @@ def build_lib(repo=None, extra=(), tag=""):
         os.replace(tmp, lib)
         # prune old libs (keep 4 newest)
         libs = sorted(glob.glob(os.path.join(BUILD, "lib", "libmj_nox_*.a")), key=os.path.getmtime)
-        for old in libs[:-4]:
+        for old in libs[:-10]:
             try:
                 os.remove(old)
             except OSError:
